@@ -105,19 +105,41 @@ func runEnqueueCase(in []int64) []int64 {
 	}
 	w := openVotes(s)
 	defer framework.CloseSession(w.ssn)
+	// everything the law sums is READ BACK from the session's JobInfo / TaskInfo objects (what the
+	// plugins themselves iterate), not computed from the case tokens
+	type seen struct{ an, alloc, gated, cand [3]int64 }
+	vec := func(r *api.Resource) [3]int64 {
+		return [3]int64{int64(r.MilliCPU), int64(r.Memory) / mib, int64(r.ScalarResources[sched.GPUName]) / 1000}
+	}
+	obs := map[int64]*seen{}
 	votes := map[int64]int64{}
 	avotes := map[int64]int64{}
 	for _, j := range js {
 		// the placement vote for the job's first pending pod that is not gated
 		avotes[j.ID] = 2
 		ji := w.ssn.Jobs[sched.JobID(j.ID)]
+		o := &seen{}
+		obs[j.ID] = o
 		var cand *api.TaskInfo
 		for _, t := range ji.Tasks {
+			v := vec(t.Resreq)
+			if api.AllocatedStatus(t.Status) {
+				o.an[0]++
+				for d := range v {
+					o.alloc[d] += v[d]
+				}
+			}
+			if t.SchGated && !api.HasOnlyVolcanoSchedulingGate(t.Pod) {
+				for d := range v {
+					o.gated[d] += v[d]
+				}
+			}
 			if t.Status == api.Pending && !t.SchGated && (cand == nil || t.UID < cand.UID) {
 				cand = t
 			}
 		}
-		if cand != nil && votable(kind, w, ji.Queue) {
+		if cand != nil {
+			o.cand = vec(cand.Resreq)
 			avotes[j.ID] = vh.B(w.ssn.Allocatable(w.ssn.Queues[ji.Queue], cand))
 		}
 		votes[j.ID] = 2
@@ -138,22 +160,18 @@ func runEnqueueCase(in []int64) []int64 {
 	out = append(out, int64(len(js)))
 	for _, j := range js {
 		after := phaseKey(string(w.ssn.Jobs[sched.JobID(j.ID)].PodGroup.Status.Phase))
-		an, a0, a1, a2 := int64(0), int64(0), int64(0), int64(0)
-		if k := min(j.Running, j.NT); k > 0 {
-			an, a0, a1, a2 = k, k*j.TCPU, k*j.TMem, k*j.TGPU
+		o := obs[j.ID]
+		// the token arithmetic of the generator must describe the same pods (a drift between
+		// openVotes / TaskSpec.Pod() and the case encoding would otherwise go unnoticed)
+		k := min(j.Running, j.NT)
+		g := max(min(j.Gated, j.NT-k), 0)
+		if o.an[0] != k || o.alloc != [3]int64{k * j.TCPU, k * j.TMem, k * j.TGPU} || o.gated != [3]int64{g * j.TCPU, g * j.TMem, g * j.TGPU} {
+			panic(fmt.Sprintf("enqueue case: job %d: session objects %+v disagree with the case tokens", j.ID, *o))
 		}
-		g := max(min(j.Gated, j.NT-min(j.Running, j.NT)), 0)
-		out = append(out, j.ID, j.Queue, j.Phase, after, j.HasMin, j.Mask, j.CPU, j.Mem, j.GPU, j.MinMember, an, a0, a1, a2, votes[j.ID],
-			g*j.TCPU, g*j.TMem, g*j.TGPU, avotes[j.ID], j.TCPU, j.TMem, j.TGPU)
+		out = append(out, j.ID, j.Queue, j.Phase, after, j.HasMin, j.Mask, j.CPU, j.Mem, j.GPU, j.MinMember, o.an[0], o.alloc[0], o.alloc[1], o.alloc[2], votes[j.ID],
+			o.gated[0], o.gated[1], o.gated[2], avotes[j.ID], o.cand[0], o.cand[1], o.cand[2])
 	}
 	return out
-}
-
-// votable: the plugin holds a record for the queue (the flat plugins only for queues with jobs)
-func votable(kind int64, w *voteWorld, q api.QueueID) bool {
-	_ = kind
-	_ = w
-	return q != ""
 }
 
 func encEnqueue(kind int64, qs []eqQueue, js []eqJob) []int64 {
@@ -300,6 +318,16 @@ func enqueueGatedWitness(kind int64) []int64 {
 func enqueueClosedChildrenWitness() []int64 {
 	return encEnqueue(kHier, []eqQueue{{ID: 1, Open: 1}, {ID: 2, Parent: 1, Open: 1, Mask: 1, CPU: 8000}, {ID: 3, Parent: 2, Open: 0}, {ID: 4, Parent: 2, Open: 0}},
 		[]eqJob{{ID: 1, Queue: 2, Phase: 1, HasMin: 1, Mask: 1, CPU: 1000, MinMember: 1, NT: 1, TCPU: 1000, TMem: 1}})
+}
+
+// audit E10: what an admitted PodGroup reserves is reduced by its scheduling-gated pods
+// (DeductSchGatedResources): capability 4 cpu, an admitted PodGroup with minResources 3 cpu whose three
+// pods are all gated reserves nothing, a Pending PodGroup with minResources 2 cpu IS admitted although
+// 3 + 2 > 4 -- by design of the code, against the strict reading of the property text
+func enqueueGatedStrictWitness(kind int64) []int64 {
+	return encEnqueue(kind, []eqQueue{{ID: 1, Open: 1, Mask: 1, CPU: 4000}},
+		[]eqJob{{ID: 1, Queue: 1, Phase: 2, HasMin: 1, Mask: 1, CPU: 3000, MinMember: 1, NT: 3, TCPU: 1000, TMem: 1, Gated: 3},
+			{ID: 2, Queue: 1, Phase: 1, HasMin: 1, Mask: 1, CPU: 2000, MinMember: 1}})
 }
 
 func enqueueWitness(kind int64) []int64 {
